@@ -226,6 +226,9 @@ func visitInstr(fr *frame, pi *pinstr) continuation {
 			fr.i.noteSharedWrite(fr, addr)
 		}
 		store(mustDeref(instr.Addr.Type()), addr, fr.arg(pi, 1))
+		if fr.i.shared != nil {
+			fr.i.publish(addr)
+		}
 
 	case *ssa.If:
 		succ := 1
@@ -374,6 +377,12 @@ func visitInstr(fr *frame, pi *pinstr) continuation {
 		key := fr.mapKey(fr.arg(pi, 1))
 		v := fr.arg(pi, 2)
 		m.insertSym(fr, key, v)
+		if fr.i.shared != nil {
+			if name, ok := fr.i.sharedMaps[m]; ok {
+				fr.i.walkShared(key, name, 1)
+				fr.i.walkShared(v, name, 1)
+			}
+		}
 
 	case *ssa.TypeAssert:
 		fr.env[pi.dst] = typeAssert(fr.i, instr, fr.arg(pi, 0).(iface))
